@@ -39,6 +39,23 @@ ASSUME ElementKindLaws ==
   /\ ~Valid(<<Arr(U8, -1, -1)>>, 1, XArray("Bool", <<>>))            \* even an empty array carries its element kind
   /\ Valid(<<Arr(ANY, -1, -1)>>, 1, XArray("Bool", <<>>)) /\ Valid(<<Arr(U8, -1, -1)>>, 1, XArray("U8", <<XU8(9)>>))
   /\ ~Valid(<<Mp(U8, BOOL, -1, -1)>>, 1, XMap("U8", "U8", <<>>))
+\* the validation family: every bound-presence combination on the base side, and for each of them every
+\* combination on the compared side among the single edits; the universe has payloads beside every bound
+ASSUME BoundFamily ==
+  /\ Len(Bases) = 32
+  /\ \A k \in {"U8", "String", "Array", "Map"}, lo \in BOOLEAN, hi \in BOOLEAN :
+       \E b \in 17..32 : /\ Bases[b][1].k = k /\ Bases[b][1].lo.some = lo /\ Bases[b][1].hi.some = hi
+                          /\ \A lo2 \in BOOLEAN, hi2 \in BOOLEAN :
+                               \E T \in Edits(Bases[b]) : T[1].k = k /\ T[1].lo.some = lo2 /\ T[1].hi.some = hi2
+  /\ \A n \in 0..4 : XU8(n) \in Universe /\ XStr(n) \in Universe /\ XArray("Bool", [i \in 1..n |-> XBool]) \in Universe
+                      /\ XMap("U8", "Bool", [i \in 1..(2 * n) |-> IF i % 2 = 1 THEN XU8(i \div 2) ELSE XBool]) \in Universe
+\* ground truth for the half-open case the comparison must not call an extension: (lower only) -> (lower, upper)
+ASSUME HalfOpenNarrowing ==
+  /\ ~ExtensionSoundU([s |-> <<U8r(1, -1)>>, root |-> 1], [s |-> <<U8r(1, 3)>>, root |-> 1])
+  /\ ~ExtensionSoundU([s |-> <<Arr(BOOL, 1, -1)>>, root |-> 1], [s |-> <<Arr(BOOL, 1, 3)>>, root |-> 1])
+  /\ ~ExtensionSoundU([s |-> <<Str(-1, 2)>>, root |-> 1], [s |-> <<Str(1, 2)>>, root |-> 1])
+  /\ ExtensionSoundU([s |-> <<Mp(U8, BOOL, 1, 2)>>, root |-> 1], [s |-> <<Mp(U8, BOOL, 1, -1)>>, root |-> 1])
+  /\ ExtensionSoundU([s |-> <<U8r(-1, 2)>>, root |-> 1], [s |-> <<U8r(0, 2)>>, root |-> 1])       \* lower bound 0 = no lower bound
 ASSUME BigNumbers ==
   /\ Leq(Num(1, <<9999, 9999>>), Num(1, <<0, 0, 1>>)) /\ ~Leq(Num(1, <<0, 0, 1>>), Num(1, <<9999, 9999>>))
   /\ Leq(Num(-1, <<0, 0, 1>>), Num(-1, <<5>>)) /\ Leq(Num(-1, <<5>>), Num(0, <<>>)) /\ Leq(Num(0, <<>>), Num(1, <<1>>))
